@@ -28,6 +28,8 @@ pub struct TestRunnerAdapter {
     event_sender: Sender<MachineEvent>,
     event_receiver: Receiver<MachineEvent>,
     breakpoints: Arc<Mutex<Vec<MachineBreakpoint>>>,
+    /// The breakpoints as the client has set them, per source file (a 'setBreakpoints' request replaces those of one file only)
+    breakpoints_by_source: HashMap<String, Vec<MachineBreakpoint>>,
 }
 
 impl TestRunnerAdapter {
@@ -165,6 +167,7 @@ impl TestRunnerAdapter {
             event_sender,
             event_receiver,
             breakpoints,
+            breakpoints_by_source: HashMap::new(),
         })
     }
 
@@ -295,7 +298,14 @@ impl MachineAdapter for TestRunnerAdapter {
         source_path: &str,
         breakpoints: Vec<MachineBreakpoint>,
     ) -> MosResult<Vec<MachineValidatedBreakpoint>> {
-        *self.breakpoints.lock().unwrap() = breakpoints.clone();
+        self.breakpoints_by_source
+            .insert(source_path.to_string(), breakpoints.clone());
+        *self.breakpoints.lock().unwrap() = self
+            .breakpoints_by_source
+            .values()
+            .flatten()
+            .cloned()
+            .collect();
         Ok(breakpoints
             .into_iter()
             .enumerate()
